@@ -58,6 +58,13 @@ JudgeEvent(ev) ==
            LET k == ev.keys[q] IN
            /\ (k.ok \/ Report("C10", "key_expression_rejected", ev, k.text))
            /\ (~k.ok \/ (k.eq /\ k.fix) \/ Report("C10", "key_expression_round_trip", ev, k.text))
+      \* wallet policy (BIP388): template text round-trips; template + key vector = the descriptor
+      /\ (ev.wp.st # "panic" \/ Report("C11", "wallet_policy_panic", ev, ev.text))
+      /\ (ev.wp.st # "ok" \/
+          /\ (ev.wp.tpl_rt \/ Report("C10", "wallet_policy_template_round_trip", ev, ev.wp.tpl))
+          /\ (ev.wp.back_eq \/ Report("C10", "wallet_policy_does_not_give_back_descriptor", ev, ev.wp.tpl))
+          /\ (ev.wp.from_str_eq \/ Report("C10", "wallet_policy_from_descriptor_string_differs", ev, ev.wp.tpl))
+          /\ (ev.wp.rekey_eq \/ Report("C10", "wallet_policy_template_plus_keys_differs", ev, ev.wp.tpl)))
       /\ \A q \in 1..Len(ev.accepted) : JudgeMutant(ev, ev.accepted[q])
       /\ \A q \in 1..Len(ev.sample) : JudgeMutant(ev, ev.sample[q])
       /\ \A q \in 1..Len(ev.eng) : JudgeEng(ev, ev.eng[q]))
